@@ -136,6 +136,9 @@ func (info *Info) Encode() []byte {
 
 	if version == 0x00020000 {
 		numGlyphs := len(info.Names)
+		if numGlyphs > 0xFFFF {
+			panic("post: too many glyph names")
+		}
 		buf.Write([]byte{byte(numGlyphs >> 8), byte(numGlyphs)})
 
 		mac := make(map[string]int, len(macRoman))
@@ -148,7 +151,15 @@ func (info *Info) Encode() []byte {
 		for _, name := range info.Names {
 			idx, ok := mac[name]
 			if !ok {
+				// The table stores the length of a name in one byte and the
+				// index of a name in 16 bits.
+				if len(name) > 255 {
+					panic("post: glyph name longer than 255 bytes")
+				}
 				idx = len(macRoman) + numStrings
+				if idx > 0xFFFF {
+					panic("post: too many non-standard glyph names")
+				}
 				stringData = append(stringData, byte(len(name)))
 				stringData = append(stringData, name...)
 				numStrings++
